@@ -13,7 +13,7 @@ CHECKS['C18'] = dict(
          'thorough: 11 grammar/path/form combinations, both textual orders for the static route). Oracle: refused with a message (located, for a configuration) or accepted; no exception other than the '
          'ValueError/IndexError the callbacks answer `error` for by name, no endless loop (CPU-time alarm); an accepted definition encodes under every session without raising and the decoded NLRI, '
          'next hop and attributes equal the values computed from the text; values the wire format holds are accepted, values it cannot hold are refused. Plus all 81 ordered pairs of 9 route shapes '
-         'in one Adj-RIB-Out (api and configuration).',
+         'in one Adj-RIB-Out (api and configuration), and every one of the 9 shapes parsed by the same API object right after a refused definition (nested with a bad value, nested with an unknown keyword, flat with a bad list): it must come out with its own route and nothing else.',
     note='Trusted: vt/ref/wire.py, vt/ref/flowvpls.py (RFC 8955/8956 flow NLRI, RFC 4761 VPLS NLRI, RFC 8669 Prefix-SID; golden vectors from the RFC examples run at start), the expected values in '
          'vt/checks/c18_tables.py. Tolerances: C01 tolerances; a keyword given twice may send either value; an attribute set too large for the negotiated message size may be accepted and not sent; '
          'ValueError/IndexError from API.api_* and ValueError / configuration Error reported by reload() are refusals. Outside: triples of deviations; flow components other than destination, source, '
